@@ -30,6 +30,12 @@ Dictionary-level ops (`Model/StreamDict.lean`):
   `ctable` = `_` or `<4|3><0|1>:<columns>:<rows>:<in>><out>;…` (Group 4 / Group 3, Invert off / on,
   width, height with -1 = detect) for the argument combinations the harness tried; the model
   looks up the combination `ccittFaxDecode` derives from the dictionary
+* `c05.sdcz <dict> <data> <table> <ctable>` — like `c05.sdc` for images near `maxCCITTOutput` (64 MiB):
+  in `ctable` an `<out>` may also be run-length coded, `R<hexbyte>x<count>.<hexbyte>x<count>.…` (`R` alone =
+  empty), and the reply is a digest, `okz <length> <fnv>` (`fnv` = fold of `h := (h*16777619 + b + 1) mod 2^32`
+  from 2166136261) or `err`. For images far beyond the bound the harness supplies the first
+  `maxCCITTOutput + 1` bytes of the library's answer only (theorem `ccitt_reads_prefix_only`: the model
+  depends on nothing else)
 * `c05.conf <stages> <dict>`        — `conformingB`: is the dictionary a conforming description of the
   pipeline (`true` / `false`); `stages` = `_` or a comma-separated list of `h<0|1>` (ASCIIHex, 1 =
   abbreviated name), `a<0|1>` (ASCII85), `f<0|1>` (Flate), `t<0|1>:<colors>:<columns>` (Flate + TIFF),
@@ -190,6 +196,35 @@ def parseStreams : List String → Option Store
     pure ({ dict := d, data := x } :: tl)
   | _ => none
 
+/-- `n` copies of `b` in front of `acc` (a loop) -/
+def pushN : Nat → Nat → Str → Str
+  | 0, _, acc => acc
+  | n + 1, b, acc => pushN n b (b :: acc)
+
+def parseRun (s : String) : Option (Nat × Nat) :=
+  match s.splitOn "x" with
+  | [b, n] => do
+    let b ← unhexS b
+    let n ← n.toNat?
+    match b with
+    | [b] => pure (b, n)
+    | _ => none
+  | _ => none
+
+/-- `<hex>` or the run-length form `R<hexbyte>x<count>.…` -/
+def unhexOrRuns (s : String) : Option Str :=
+  if s.startsWith "R" then
+    let body := (s.drop 1).toString
+    if body == "" then some []
+    else ((body.splitOn ".").mapM parseRun).map fun runs => runs.foldr (fun r acc => pushN r.2 r.1 acc) []
+  else unhexS s
+
+def fnvStep (h b : Nat) : Nat := (h * 16777619 + b + 1) % 4294967296
+
+def replyZ : Option Str → String
+  | some s => "okz " ++ toString s.length ++ " " ++ toString (s.foldl fnvStep 2166136261)
+  | none => "err"
+
 def parseCEntry (s : String) : Option ((CcittArgs × Str) × Option Str) :=
   match s.splitOn ">" with
   | [key, o] =>
@@ -200,7 +235,7 @@ def parseCEntry (s : String) : Option ((CcittArgs × Str) × Option Str) :=
       let columns ← columns.toInt?
       let rows ← rows.toInt?
       let i ← unhexS i
-      let o ← if o == "!" then some none else (unhexS o).map some
+      let o ← if o == "!" then some none else (unhexOrRuns o).map some
       pure (({ group4 := g, invert := inv, columns := columns, rows := rows }, i), o)
     | _ => none
   | _ => none
@@ -256,6 +291,11 @@ def handle (op : String) (args : List String) : String :=
     match parseDict d, unhexS x, parseTable t, parseCTable ct with
     | some d, some x, some t, some ct =>
       reply (streamDecodeD { inflate := lookupTable t, ccitt := lookupCTable ct } d x)
+    | _, _, _, _ => "bad-op"
+  | "c05.sdcz", [d, x, t, ct] =>
+    match parseDict d, unhexS x, parseTable t, parseCTable ct with
+    | some d, some x, some t, some ct =>
+      replyZ (streamDecodeD { inflate := lookupTable t, ccitt := lookupCTable ct } d x)
     | _, _, _, _ => "bad-op"
   | "c05.sess", calls :: t :: streams =>
     match (calls.splitOn ",").mapM String.toNat?, parseTable t, parseStreams streams with
